@@ -18,5 +18,16 @@ for k in kf:
     what = re.sub(r"^fixed: property=\S+ \S+ ", "", k["what"]).replace("|", "/")
     frows.append(f"| {k['property']} | `{k['key']}` | {tri} | {what} |")
 d = re.sub(r"<!-- FINDINGS-TABLE-BEGIN -->\n.*?<!-- FINDINGS-TABLE-END -->", lambda m: "<!-- FINDINGS-TABLE-BEGIN -->\n" + "\n".join(frows) + "\n<!-- FINDINGS-TABLE-END -->", d, flags=re.S)
+nf = os.path.join(V, "seeded", "NEUTRAL.json")
+if os.path.exists(nf):
+    nr = json.load(open(nf))
+    res = {r["seed"]: r for r in json.load(open(os.path.join(V, "seeded", "RESULTS.json")))}
+    silent = [r for r in nr if r["status"] == "SILENT"]
+    alarm = [r for r in nr if r["status"] != "SILENT"]
+    both = [r for r in silent if res.get(r["seed"], {}).get("status") == "DETECTED"]
+    txt = (f"Last run: **{len(silent)} of {len(nr)} refactorings silent**; for {len(both)} of those {len(silent)} the paired slip is reported "
+           f"(the measure that matters: silent on the refactoring *and* loud on the slip). Still alarming ({len(alarm)}): "
+           + ", ".join(f"{r['seed']} (`{r['rules'][0].split('/', 1)[1] if r['rules'] else r['status']}`)" for r in alarm) + ".")
+    d = re.sub(r"<!-- NEUTRAL-NUMBERS -->(\n.*?<!-- /NEUTRAL-NUMBERS -->)?", lambda m: "<!-- NEUTRAL-NUMBERS -->\n" + txt + "\n<!-- /NEUTRAL-NUMBERS -->", d, flags=re.S)
 open(os.path.join(V, "DESIGN.md"), "w").write(d)
 print("tables refreshed")
